@@ -187,3 +187,33 @@ pub fn insert_rejected(mode: u8, c: usize, r: usize, what: u8) {
     }
     returned!();
 }
+
+/// Zero-sized elements without drop glue (`()`).
+pub fn insert_unit(mode: u8, c: usize, r: usize) {
+    let mut v: Vec<()> = Vec::new();
+    let mut i = 0;
+    while i < c * r {
+        v.push(());
+        i += 1;
+    }
+    let mut t: TooDee<()> = TooDee::from_vec(c, r, v);
+    let is_row = mode < 2;
+    let dim = if is_row { r } else { c };
+    let line = if is_row { c } else { r };
+    let idx = nd::upto(dim);
+    let mut items: Vec<()> = Vec::new();
+    let mut k = 0;
+    while k < line {
+        items.push(());
+        k += 1;
+    }
+    if is_row {
+        t.insert_row(idx, items);
+    } else {
+        t.insert_col(idx, items);
+    }
+    let (nc, nr) = if is_row { (c, r + 1) } else { (c + 1, r) };
+    assert!(t.size() == (nc, nr), "ORACLE: size after insert (unit elements)");
+    inv(&t);
+    end_reached!();
+}
